@@ -1024,7 +1024,7 @@ def search(ctx, broken, corr):
 
 def classify(ctx, failure):
     w = failure.what
-    doc = (failure.replay or {}).get("doc", "") if isinstance(failure.replay, dict) else ""
+    doc = ((failure.replay or {}).get("doc") or "") if isinstance(failure.replay, dict) else ""
     if "heap-buffer-overflow" in w and "activeCov" in (failure.detail or "") and "cov-mat" in doc:
         return "F9"
     if "cov-mat dim" in w and "differs from the number of observations" in w and ("<obs" in doc or "<height-differences" in doc):
